@@ -649,9 +649,10 @@ end Facts
 
 /-! ## the property, as far as these decoders go -/
 
-/-- C02 for the Deserializer primitives, the stream readers and the JSON/map decoder: never a panic,
-never more consumed than supplied, allocation and iteration linear in the *input* (not in any length
-field).  (The clause for serix binary `Decode` over registered types is `C02b`.) -/
+/-- C02 for the Deserializer primitives, the stream readers, the JSON/map decoder (documents and raw texts), the string
+decoders of numbers.go, the ordered map and typeutils: never a panic, never more consumed / produced than supplied,
+allocation and iteration linear in the *input* (not in any length field).  (The clause for serix binary `Decode` over
+registered types is `C02b`.) -/
 def C02_statement : Prop :=
   (∀ (p : Deser.Prog) (b : Bytes), p.static = true →
       (Deser.runProg p b).res ≠ .panic ∧
@@ -663,12 +664,22 @@ def C02_statement : Prop :=
       (Stream.runProg p rd).rd.rest.length ≤ rd.rest.length ∧
       (Stream.runProg p rd).cost.alloc ≤ 5 * (rd.rest.length + 1) + 16384 ∧
       (p.pos = true → (Stream.runProg p rd).cost.iters ≤ p.K * (rd.rest.length + 1))) ∧
-  (∀ (validate : Bool) (t : JsonDec.JTy) (j : JsonDec.Json), JsonDec.dec ⟨true, validate⟩ t j ≠ .panic)
+  (∀ (validate : Bool) (t : JsonDec.JTy) (j : JsonDec.Json), JsonDec.dec ⟨true, validate⟩ t j ≠ .panic) ∧
+  -- JSONDecode of any text (whatever encoding/json makes of it), the string decoders of numbers.go
+  (∀ (validate : Bool) (t : JsonDec.JTy) (doc : Option JsonDec.Json), JsonDec.decText ⟨true, validate⟩ t doc ≠ .panic) ∧
+  (∀ (s : Bytes) (n : Nat), (JsonDec.hexDecode s = some n → 2 * n ≤ s.length) ∧ (JsonDec.bigDecode s = some n → 2 * n ≤ s.length)) ∧
+  -- SerializableOrderedMap.Decode for every key / value width (zero included), typeutils
+  (∀ (kw vw : Nat) (b : Bytes), (Deser.omapDecode kw vw b).1 ≠ .panic ∧
+      ((Deser.omapDecode kw vw b).1 = .ok → (Deser.omapDecode kw vw b).2.1 ≤ b.length) ∧ (Deser.omapDecode kw vw b).2.2 ≤ b.length + 2) ∧
+  (∀ (n : Nat) (b v : Bytes) (c : Nat), Deser.fromBytesFixed n b = some (v, c) → c ≤ b.length)
 
 theorem C02_all : C02_statement := by
   refine ⟨fun p b hs => ⟨C02_deser_no_panic p hs b, C02_deser_offset_le p b, ?_, fun hp => (C02_iters_linear p hp b).1⟩,
     fun p rd => ⟨C02_stream_no_panic p rd, C02_stream_consumed_le p rd, ?_, fun hp => C02_stream_iters_linear p hp rd⟩,
-    C02_json_no_panic⟩
+    C02_json_no_panic, C02_json_text_no_panic,
+    fun s n => ⟨(C02_numbers_output_le s n).1, fun h => ((C02_numbers_output_le s n).2 h).2⟩,
+    fun kw vw b => ⟨(C02_omap_total kw vw b).1, (C02_omap_total kw vw b).2.1, C02_omap_rounds_unconditional kw vw b⟩,
+    C02_typeutils_consumed_le⟩
   · have := (C02_alloc_linear p b).1
     rw [Nat.mul_add]; omega
   · have := (C02_stream_alloc_linear p rd).1
